@@ -21,7 +21,7 @@ L3_ASSUME = L1_ASSUME + [
 ]
 GEN_MAIN = {"name": "l3main", "kind": "main", "n": {"quick": 300, "thorough": 300}}
 GEN_MAGIC = {"name": "l3magic", "kind": "magic", "n": {"quick": 200, "thorough": 200}}
-GEN_SHAPES = {"name": "l3shapes", "kind": "shapes", "n": {"quick": 96, "thorough": 2048}}
+GEN_SHAPES = {"name": "l3shapes", "kind": "shapes", "n": {"quick": 150, "thorough": 2048}}
 GEN_SUGG = {"name": "l3sugg", "kind": "sugg", "n": {"quick": 100, "thorough": 100}}
 GEN_SUGG_OFF = {"name": "l3sugg_off", "kind": "sugg", "n": {"quick": 100, "thorough": 100}, "no_default_features": True}
 
@@ -76,13 +76,13 @@ CHECKS = {
     },
     "C02": {
         "packages": ["vchecks", "vgen"],
-        "steps": [l3("c02", "l3", 90000, 24000000), l3("c02-body", "body", 30000, 6400000, gen=GEN_MAGIC)],
+        "steps": [l3("c02", "l3", 150000, 24000000), l3("c02-body", "body", 100000, 6400000, gen=GEN_MAGIC)],
         "assumptions": L3_ASSUME,
     },
     "C03": {
         "packages": ["vchecks", "vgen"],
-        "steps": [vc("c03a", "api", 30000, 8000000), vc("c03-maps", "maps", 20000, 4000000), vc("c03s", "builtins", 40000, 8000000, produces=["seqs", "hooks"]), l3("c03b", "l3", 90000, 24000000),
-                  l3("c03-enums", "enums", 1, 1), l3("c03-body", "body", 30000, 6400000, gen=GEN_MAGIC),
+        "steps": [vc("c03a", "api", 100000, 8000000), vc("c03-maps", "maps", 20000, 4000000), vc("c03s", "builtins", 40000, 8000000, produces=["seqs", "hooks"]), l3("c03b", "l3", 150000, 24000000),
+                  l3("c03-enums", "enums", 1, 1), l3("c03-body", "body", 100000, 6400000, gen=GEN_MAGIC),
                   fz("C03", "c03-api"), fz("C03", "c03-maps"), fz("C03", "c03-seqs"), fz("C03", "c03-hooks")],
         "assumptions": L1_ASSUME,
     },
@@ -124,12 +124,12 @@ CHECKS = {
     },
     "C15": {
         "packages": ["vchecks"],
-        "steps": [vc("c15", "lists", 40000, 8000000, produces=["lists", "routing"]), fuzz("meta_list", "C15", 10000000), fz("C15", "c15", 1000000)],
+        "steps": [vc("c15", "lists", 200000, 8000000, produces=["lists", "routing"]), fuzz("meta_list", "C15", 10000000), fz("C15", "c15", 1000000)],
         "assumptions": L1_ASSUME + ["the documented default chain (from_meta -> from_word/from_list/from_expr -> from_value -> from_bool/from_string/from_char) is read off the FromMeta trait docs"],
     },
     "C12": {
         "packages": ["vchecks"],
-        "steps": [vc("c12", "wrappers", 1500, 256000), fz("C12", "c12", 8000, 8)],
+        "steps": [vc("c12", "wrappers", 4000, 256000), fz("C12", "c12", 8000, 8)],
         "assumptions": L1_ASSUME + ["the wrapped type's own from_meta on the same item is the reference (differential)"],
     },
     "C18": {
@@ -139,8 +139,8 @@ CHECKS = {
     },
     "C07": {
         "packages": ["vchecks", "vgen"],
-        "steps": [vc("c07", "builtins", 4000, 640000),
-                  l3("c07b", "recv-main", 60000, 12800000, extra={"stepname": "recv-main"}),
+        "steps": [vc("c07", "builtins", 12000, 640000),
+                  l3("c07b", "recv-main", 150000, 12800000, extra={"stepname": "recv-main"}),
                   l3("c07b", "recv-magic", 40000, 6400000, gen=GEN_MAGIC, extra={"stepname": "recv-magic"}),
                   l3("c07b", "recv-shapes", 30000, 800000, 4, gen=GEN_SHAPES, extra={"stepname": "recv-shapes"}),
                   fuzz("runtime_total", "C07", 1500000)],
@@ -148,7 +148,7 @@ CHECKS = {
     },
     "C08": {
         "packages": ["vchecks", "vgen"],
-        "steps": [l3("c08", "partitions", 12000, 2400000), l3("c08-forward", "forward", 30000, 6400000, gen=GEN_MAGIC)],
+        "steps": [l3("c08", "partitions", 60000, 2400000), l3("c08-forward", "forward", 100000, 6400000, gen=GEN_MAGIC)],
         "assumptions": L3_ASSUME + ["merging is checked metamorphically (every partition against the single-attribute rendering), forwarding against the input attributes selected by the declaration"],
     },
     "C09": {
@@ -158,7 +158,7 @@ CHECKS = {
     },
     "C16": {
         "packages": ["vchecks", "vgen"],
-        "steps": [l3("c16", "magic", 40000, 12800000, gen=GEN_MAGIC), vc("c16t", "fields-print", 20000, 4000000), fz("C16", "c16t")],
+        "steps": [l3("c16", "magic", 150000, 12800000, gen=GEN_MAGIC), vc("c16t", "fields-print", 100000, 4000000), fz("C16", "c16t")],
         "assumptions": L3_ASSUME,
     },
     "C17": {
@@ -169,7 +169,7 @@ CHECKS = {
     },
     "C05": {
         "packages": ["vchecks"],
-        "steps": [vc("c05", "histories", 40000, 16000000), fz("C05", "c05", 1000000, 8)],
+        "steps": [vc("c05", "histories", 200000, 16000000), fz("C05", "c05", 1000000, 8)],
         "assumptions": L1_ASSUME + ["a double panic is observed as the child process not exiting 0"],
     },
 }
